@@ -279,14 +279,15 @@ Section World.
     rewrite Ht, upd2_same in Hr. discriminate.
   Qed.
 
-  Definition fin (v : variant) (w : world) (n c x : N) (st1 : store) (ctl1 idx2 : N -> N -> option N) : world :=
-    {| w_now := w_now w; w_st := store_register ttl n (w_now w) st1 c x true; w_conns := w_conns w;
+  Definition fin (v : variant) (w : world) (n c x : N) (st1 : store) (ctl1 idx2 : N -> N -> option N)
+             (cn1 : N -> N -> bool) : world :=
+    {| w_now := w_now w; w_st := store_register ttl n (w_now w) st1 c x true; w_conns := cn1;
        w_ctl := upd2 ctl1 n c (Some x); w_idx := upd2 idx2 n x (Some c) |}.
 
   Lemma authok_shape v w n c x :
     w_conns w n c = true -> x <> 0 ->
-    exists st1 ctl1 idx2,
-      step v b ttl w (AuthOK n c x) = fin v w n c x st1 ctl1 idx2 /\
+    exists st1 ctl1 idx2 cn1,
+      step v b ttl w (AuthOK n c x) = fin v w n c x st1 ctl1 idx2 cn1 /\
       ((st1 = w_st w /\ ctl1 = w_ctl w /\ idx2 = recon w n c x /\
         (recon w n c x n x = None \/ recon w n c x n x = Some c))
        \/ exists o, recon w n c x n x = Some o /\ o <> c /\
@@ -298,12 +299,12 @@ Section World.
     fold (recon w n c x).
     destruct (recon w n c x n x) as [o|] eqn:Er.
     - destruct (N.eqb_spec o c) as [Eo|Eo].
-      + exists (w_st w), (w_ctl w), (recon w n c x). split; [reflexivity|]. left.
+      + exists (w_st w), (w_ctl w), (recon w n c x), (w_conns w). split; [reflexivity|]. left.
         split; [reflexivity|]. split; [reflexivity|]. split; [reflexivity|]. right. subst. reflexivity.
       + destruct (reg_remove n o (w_ctl w) (recon w n c x)) as [ctl' idx'] eqn:Err.
-        exists (store_unregister v b (w_now w) (w_st w) o), ctl', idx'. split; [reflexivity|]. right.
+        exists (store_unregister v b (w_now w) (w_st w) o), ctl', idx', (reg_close n o (w_ctl w) (w_conns w)). split; [reflexivity|]. right.
         exists o. split; [reflexivity|]. split; [exact Eo|]. split; [reflexivity|]. rewrite Err. split; reflexivity.
-    - exists (w_st w), (w_ctl w), (recon w n c x). split; [reflexivity|]. left.
+    - exists (w_st w), (w_ctl w), (recon w n c x), (w_conns w). split; [reflexivity|]. left.
       split; [reflexivity|]. split; [reflexivity|]. split; [reflexivity|]. left. reflexivity.
   Qed.
 
@@ -320,7 +321,7 @@ Section World.
     - (* AuthOK *)
       destruct (w_conns w n c) eqn:Hc; [|rewrite authok_noop; [exact HL|left; exact Hc]].
       destruct (N.eq_dec x 0) as [Hx|Hx]; [rewrite authok_noop; [exact HL|right; exact Hx]|].
-      destruct (authok_shape v w n c x Hc Hx) as [st1 [ctl1 [idx2 [Es Hsh]]]]. rewrite Es.
+      destruct (authok_shape v w n c x Hc Hx) as [st1 [ctl1 [idx2 [cn1 [Es Hsh]]]]]. rewrite Es.
       assert (H1 : LpR ctl1 idx2 /\ ctl1 n c = w_ctl w n c /\
                    (forall n' y o, idx2 n' y = Some o -> recon w n c x n' y = Some o)).
       { destruct Hsh as [[_ [E2 [E3 _]]]|[o [Ho [Hoc [_ [E2 E3]]]]]]; subst ctl1 idx2.
@@ -376,7 +377,7 @@ Section World.
     intros Hown H0. destruct e as [n1 c1|n1 c1 x|n1 c1|n1 x c1|n1 c1|n1 c1|d]; try exact H0.
     - destruct (w_conns w n1 c1) eqn:Hc; [|rewrite authok_noop; [exact H0|left; exact Hc]].
       destruct (N.eq_dec x 0) as [Hx|Hx]; [rewrite authok_noop; [exact H0|right; exact Hx]|].
-      destruct (authok_shape v w n1 c1 x Hc Hx) as [st1 [ctl1 [idx2 [Es Hsh]]]]. rewrite Es.
+      destruct (authok_shape v w n1 c1 x Hc Hx) as [st1 [ctl1 [idx2 [cn1 [Es Hsh]]]]]. rewrite Es.
       unfold fin. cbn [w_ctl].
       destruct (upd2_cases ctl1 n1 c1 n' c (Some x)) as [[En [Ec _]]|[_ E]].
       + exfalso. subst. apply (Hown n1 x); reflexivity.
@@ -458,7 +459,7 @@ Section Current.
         apply N.eqb_neq in Hdx. apply N.eqb_neq in Hdc.
         destruct (w_conns w n1 c1) eqn:Hcn; [|rewrite authok_noop; [exact HS|left; exact Hcn]].
         destruct (N.eq_dec x 0) as [Hx|Hx]; [rewrite authok_noop; [exact HS|right; exact Hx]|].
-        destruct (authok_shape b ttl cur w n1 c1 x Hcn Hx) as [st1 [ctl1 [idx2 [Es Hsh]]]]. rewrite Es.
+        destruct (authok_shape b ttl cur w n1 c1 x Hcn Hx) as [st1 [ctl1 [idx2 [cn1 [Es Hsh]]]]]. rewrite Es.
         unfold fin. cbn [w_now w_st].
         apply SI_register; [exact Hdc|exact Hdx|].
         destruct Hsh as [[E1 _]|[o [Ho [_ [E1 _]]]]]; subst st1; [exact HS|].
@@ -492,7 +493,7 @@ Section Current.
         apply N.eqb_neq in Hdx. apply N.eqb_neq in Hdc.
         destruct (w_conns w n1 c1) eqn:Hcn; [|rewrite authok_noop; [exact Hc|left; exact Hcn]].
         destruct (N.eq_dec x 0) as [Hx|Hx]; [rewrite authok_noop; [exact Hc|right; exact Hx]|].
-        destruct (authok_shape b ttl cur w n1 c1 x Hcn Hx) as [st1 [ctl1 [idx2 [Es Hsh]]]]. rewrite Es.
+        destruct (authok_shape b ttl cur w n1 c1 x Hcn Hx) as [st1 [ctl1 [idx2 [cn1 [Es Hsh]]]]]. rewrite Es.
         unfold fin. cbn [w_ctl]. rewrite upd2_other; [|right; congruence].
         destruct Hsh as [[_ [E2 _]]|[o [Ho [_ [_ [E2 _]]]]]]; subst ctl1; [exact Hc|].
         rewrite reg_remove_ctl.
@@ -546,9 +547,9 @@ Section Current.
     assert (HL0 : Lp w0) by (apply Lp_run; apply Lp_init).
     assert (HQ0 : Q n c w0) by (apply Q_run; [exact Hown|apply Q_init]).
     split; [|split; [|split]].
-    - destruct (authok_shape b ttl cur w0 n c X Hcn HX) as [st1 [ctl1 [idx2 [Es _]]]]. rewrite Es.
+    - destruct (authok_shape b ttl cur w0 n c X Hcn HX) as [st1 [ctl1 [idx2 [cn1 [Es _]]]]]. rewrite Es.
       unfold fin. cbn [w_now w_st]. apply SI_after_register. exact HX.
-    - destruct (authok_shape b ttl cur w0 n c X Hcn HX) as [st1 [ctl1 [idx2 [Es _]]]]. rewrite Es.
+    - destruct (authok_shape b ttl cur w0 n c X Hcn HX) as [st1 [ctl1 [idx2 [cn1 [Es _]]]]]. rewrite Es.
       unfold fin. cbn [w_ctl]. apply upd2_same.
     - apply Lp_step. exact HL0.
     - intros n' Hn'. apply ctl_step_other; [|apply HQ0; exact Hn'].
@@ -580,7 +581,7 @@ Section Sound.
         [|rewrite authok_noop in H; [|left; exact Hcn]; left; apply Same; [exact H|intros m E; discriminate]].
       destruct (N.eq_dec x 0) as [Hx|Hx];
         [rewrite authok_noop in H; [|right; exact Hx]; left; apply Same; [exact H|intros m E; discriminate]|].
-      destruct (authok_shape b ttl cur w n1 c1 x Hcn Hx) as [st1 [ctl1 [idx2 [Es Hsh]]]]. rewrite Es in H.
+      destruct (authok_shape b ttl cur w n1 c1 x Hcn Hx) as [st1 [ctl1 [idx2 [cn1 [Es Hsh]]]]]. rewrite Es in H.
       unfold fin in H. cbn [w_st] in H. rewrite reg_cs in H.
       destruct (N.eqb_spec k c1) as [Ek|Ek].
       + right. injection H as <-. subst k. cbn [i_client i_node]. exists n1. split; reflexivity.
@@ -613,7 +614,7 @@ Section Sound.
     - left. exists e'. exact H.
     - destruct (w_conns w n1 c1) eqn:Hcn; [|rewrite authok_noop in H; [|left; exact Hcn]; left; exists e'; exact H].
       destruct (N.eq_dec y 0) as [Hy|Hy]; [rewrite authok_noop in H; [|right; exact Hy]; left; exists e'; exact H|].
-      destruct (authok_shape b ttl cur w n1 c1 y Hcn Hy) as [st1 [ctl1 [idx2 [Es Hsh]]]]. rewrite Es in H.
+      destruct (authok_shape b ttl cur w n1 c1 y Hcn Hy) as [st1 [ctl1 [idx2 [cn1 [Es Hsh]]]]]. rewrite Es in H.
       unfold fin in H. cbn [w_st] in H. rewrite reg_ci in H.
       destruct ((0 <? y) && (x =? y)) eqn:Eb.
       + right. apply andb_true_iff in Eb. destruct Eb as [_ Exy]. apply N.eqb_eq in Exy. subst y.
